@@ -402,15 +402,10 @@ pub fn check_frame(req_opcode: u8, req_opaque: u32, req_key: &[u8], r: &Resp) ->
             }
         }
         _ => {
-            // set/add/replace/append/prepend/delete/flush/noop/quit: empty body
-            if r.body_len != 0 || r.extras_len != 0 || r.key_len != 0 {
-                return Err(format!(
-                    "frame.empty-body: {} answered with body {} extras {} key {}",
-                    op_name(req_opcode),
-                    r.body_len,
-                    r.extras_len,
-                    r.key_len
-                ));
+            // set/add/replace/append/prepend/delete/flush/noop/quit: the property only asks that the
+            // lengths describe the bytes that follow (checked above); the key is echoed by get-key only
+            if r.key_len != 0 {
+                return Err(format!("frame.key-echo: {} echoed a key ({} bytes)", op_name(req_opcode), r.key_len));
             }
         }
     }
